@@ -305,6 +305,12 @@ func (d *Driver) Restart() {
 	d.App = NewApp(d.DB, d.Cfg, d.Index)
 }
 
+// RestartWith reopens the database with other node-local settings (pruning, lazy loading).
+func (d *Driver) RestartWith(pruning [2]int64, lazy bool) {
+	d.Cfg.Pruning, d.Cfg.Lazy = pruning, lazy
+	d.Restart()
+}
+
 func (d *Driver) Close() { d.App.Close() }
 
 func (d *Driver) nextEntropy() int64 { d.entropy++; return d.Height*100000 + d.entropy }
